@@ -53,12 +53,18 @@ type c07Cell struct {
 	// noSessionIDs: the server is configured with GetSessionID returning "" (a stateful endpoint that
 	// issues no Mcp-Session-Id); it is still a stateful endpoint and cannot serve 2026-07-28
 	noSessionIDs bool
+	// logged: the server's transport is wrapped in the SDK's LoggingTransport (which must not hide
+	// what the wrapped transport says about the versions it can serve)
+	logged bool
 }
 
 func (c c07Cell) String() string {
 	x := ""
 	if c.noSessionIDs {
 		x = " GetSessionID=empty"
+	}
+	if c.logged {
+		x += " server-transport-wrapped-in-LoggingTransport"
 	}
 	return fmt.Sprintf("transport=%s json=%v store=%v advertised=%s requested=%q%s", c.transport, c.jsonResp, c.store, c.advertised, c.requested, x)
 }
@@ -125,6 +131,9 @@ func c07RunOn(s *Server, c c07Cell) (obs, sig, msg string) {
 		}
 		if c.advertised != "all" {
 			st = &c07Advertise{Transport: st, set: advertised}
+		}
+		if c.logged {
+			st = &LoggingTransport{Transport: st, Writer: io.Discard}
 		}
 		ss, err := s.Connect(ctx, st, nil)
 		if err != nil {
@@ -363,6 +372,9 @@ func TestVerifC07(t *testing.T) {
 		for _, tr := range []string{"inmem", "io"} {
 			for _, adv := range []string{"all", "legacy", "mixed"} {
 				cells = append(cells, c07Cell{transport: tr, advertised: adv, requested: r})
+				if tr == "inmem" {
+					cells = append(cells, c07Cell{transport: tr, advertised: adv, requested: r, logged: true})
+				}
 			}
 		}
 		cells = append(cells, c07Cell{transport: "sse", advertised: "all", requested: r})
